@@ -274,7 +274,11 @@ def finish(prop, tier, seed, cfg, reports, trouble, wall, build_s):
     counters, features, strategies = {}, {}, {}
     hashes, nth = set(), set()
     samples, violations, known, herrs = [], [], [], []
+    by_engine = {}
     for r in reports:
+        be = by_engine.setdefault(r.get("engine") or "?", dict(runs=0, scheduler_decisions=0))
+        be["runs"] += r.get("runs") or 0
+        be["scheduler_decisions"] += r.get("steps") or 0
         for k in ("runs", "evals", "reached", "nontrivial", "steps", "vtime_ns", "leaks"):
             agg[k] += r.get(k) or 0
         for src, dst in ((r.get("counters"), counters), (r.get("features"), features), (r.get("strategies"), strategies)):
@@ -328,6 +332,7 @@ def finish(prop, tier, seed, cfg, reports, trouble, wall, build_s):
             strategies=strategies,
             goroutine_leaks_after_teardown=agg["leaks"],
             workers=len(reports),
+            runs_by_engine=by_engine,
             build_s=round(build_s, 1),
             components=COMPONENTS.get(prop, {}),
             known_findings=known_u,
